@@ -755,6 +755,7 @@ fn generate_derived_packet_decl(
                 #( #constraint_checks )*
                 Ok(Self {
                     #( #copied_field_ids: parent.#copied_field_ids, )*
+                    #( #cloned_field_ids: parent.#cloned_field_ids.clone(), )*
                 })
             }
         }
@@ -781,7 +782,8 @@ fn generate_derived_packet_decl(
             let id = f.id().unwrap().to_ident();
             match all_constraints.get(f.id().unwrap()) {
                 Some(c) => constraint_value(&parent_data_fields, c),
-                None => quote! { packet.#id },
+                None if implements_copy(scope, f) => quote! { packet.#id },
+                None => quote! { packet.#id.clone() },
             }
         });
         if parent_decl.payload().is_some() {
